@@ -44,6 +44,9 @@ fn main() {
             });
             std::process::exit(harness::check(arm.as_ref(), tier, seed));
         }
+        "selftest" => {
+            std::process::exit(selftest());
+        }
         "transcript" => {
             if args.len() < 3 {
                 usage();
@@ -80,4 +83,65 @@ fn main() {
         }
         _ => usage(),
     }
+}
+
+/// The stub must be a conforming `Database`, and the model must agree with the library on the things both
+/// can compute without any history, before anything the simulator reports is believed.
+fn selftest() -> i32 {
+    use akd::storage::Database;
+    let rt = tokio::runtime::Builder::new_current_thread().enable_time().build().unwrap();
+    // 1. akd's own storage-layer test-suite, run against SimDb (no scheduler installed: the gate is open)
+    let store = simdb::SimStore::new();
+    let db = store.handle(0);
+    let r = std::panic::catch_unwind(std::panic::AssertUnwindSafe(|| {
+        rt.block_on(async {
+            let _mgr = akd::storage::tests::run_test_cases_for_storage_impl(db.clone()).await;
+            // and the same calls must have kept the shadow map and memory.rs in agreement
+            let _ = db.get::<akd::Azks>(&akd::append_only_zks::DEFAULT_AZKS_KEY).await;
+        })
+    }));
+    if r.is_err() {
+        println!("SELFTEST FAILED: SimDb does not pass akd's storage test-suite");
+        return 2;
+    }
+    let mm = store.take_mismatches();
+    if !mm.is_empty() {
+        println!("SELFTEST FAILED: memory.rs and the shadow map disagree: {}", mm[0]);
+        return 2;
+    }
+    // 2. the model's empty-tree hash and a three-epoch history equal the library's, for both configurations
+    for cfg in [model::Cfg::WhatsApp, model::Cfg::Experimental] {
+        let ok = rt.block_on(async {
+            async fn go<TC: model::ModelCfg>() -> bool {
+                let store = simdb::SimStore::new();
+                let mgr = akd::storage::StorageManager::new_no_cache(store.handle(0));
+                let dir = akd::Directory::<TC, _, _>::new(mgr, model::SimVrf::default(), akd::AzksParallelismConfig::disabled()).await.unwrap();
+                let mut m = model::Model::new(TC::CFG);
+                let e0 = dir.get_epoch_hash().await.unwrap();
+                if (e0.0, e0.1) != m.current() {
+                    return false;
+                }
+                for (i, b) in [vec![("a", "1"), ("b", "2")], vec![("a", "3")], vec![("c", ""), ("b", "2")]].iter().enumerate() {
+                    let batch: Vec<(Vec<u8>, Vec<u8>)> = b.iter().map(|(l, v)| (l.as_bytes().to_vec(), v.as_bytes().to_vec())).collect();
+                    let eh = dir.publish(model::to_akd_batch(&batch)).await.unwrap();
+                    let (_, e, h) = m.publish(&batch);
+                    if (eh.0, eh.1) != (e, h) {
+                        println!("model and library disagree after publish {i}");
+                        return false;
+                    }
+                }
+                true
+            }
+            match cfg {
+                model::Cfg::WhatsApp => go::<akd::WhatsAppV1Configuration>().await,
+                model::Cfg::Experimental => go::<akd::ExperimentalConfiguration<akd::ExampleLabel>>().await,
+            }
+        });
+        if !ok {
+            println!("SELFTEST FAILED: reference model vs library on a fixed three-epoch history ({cfg:?})");
+            return 2;
+        }
+    }
+    println!("selftest ok: SimDb passes akd's storage test-suite; model agrees with the library on the fixed history (both configurations)");
+    0
 }
